@@ -20,6 +20,8 @@ def _script(owner, key, args, kwargs):
                           else [I.canon_scalar(x, as_int=(key == "set_volume")) for x in args]])
     owner.ncalls += 1
     resp = owner.answers.get(key, I.DEFAULT)
+    if owner.idx >= 0:
+        resp = I.concrete(resp, key, args, kwargs)
     if resp[0] == "raise":
         raise I.make_exc(resp[1])
     obj = I.render_resp(resp, owner.salt + owner.ncalls)
